@@ -89,6 +89,76 @@ type Out struct {
 	Idents   []Ident          `json:"idents,omitempty"`
 	Tokens   []Tok            `json:"tokens,omitempty"`
 	Dot      string           `json:"dot,omitempty"`
+	Ast      *Ast             `json:"ast,omitempty"`
+	AstErr   string           `json:"asterr,omitempty"`
+}
+
+// the parser's AST (Parser/Parser.go DeclareNode, RuleDefNode) as plain data
+type AstPrec struct {
+	Assoc int    `json:"assoc"`
+	Name  string `json:"name"`
+}
+type AstType struct {
+	Tag  string `json:"tag"`
+	Name string `json:"name"`
+}
+type AstElem struct {
+	T int    `json:"t"`
+	E string `json:"e"`
+}
+type AstRule struct {
+	Line int       `json:"line"`
+	Lhs  string    `json:"lhs"`
+	Prec string    `json:"prec"`
+	Rhs  []AstElem `json:"rhs"`
+}
+type Ast struct {
+	Code   string      `json:"code"`
+	Union  string      `json:"union"`
+	Start  string      `json:"start"`
+	Tokens [][]Ident   `json:"tokens"`
+	Precs  [][]AstPrec `json:"precs"`
+	Types  []AstType   `json:"types"`
+	Rules  []AstRule   `json:"rules"`
+}
+
+func astOf(src string) (a *Ast, errs string) {
+	defer func() {
+		if r := recover(); r != nil {
+			a, errs = nil, "panic:"+fmt.Sprint(r)
+		}
+	}()
+	root, err := parser.Parse(src)
+	if err != nil {
+		return nil, "err:" + err.Error()
+	}
+	d := root.Declare.(*parser.DeclareNode)
+	a = &Ast{Code: d.CodeList, Union: d.Union, Start: d.StartSym, Tokens: [][]Ident{}, Precs: [][]AstPrec{}, Types: []AstType{}, Rules: []AstRule{}}
+	for _, td := range d.TokenDefList {
+		line := []Ident{}
+		for _, id := range td.IdentifyList {
+			line = append(line, Ident{id.Name, int(id.IDTyp), id.Value, id.Tag, id.Alias})
+		}
+		a.Tokens = append(a.Tokens, line)
+	}
+	for _, pl := range d.PrecDefList {
+		line := []AstPrec{}
+		for _, p := range pl {
+			line = append(line, AstPrec{int(p.AssocType), p.IdName})
+		}
+		a.Precs = append(a.Precs, line)
+	}
+	for _, t := range d.TypeDefList {
+		a.Types = append(a.Types, AstType{t.Tag, t.IdName})
+	}
+	for _, r := range root.Rules.(*parser.RuleDefNode).RuleDefList {
+		rr := AstRule{Line: r.LineNo, Lhs: r.LeftPart, Prec: r.PrecSym, Rhs: []AstElem{}}
+		for _, e := range r.RightPart {
+			rr.Rhs = append(rr.Rhs, AstElem{int(e.ElemType), e.Element})
+		}
+		a.Rules = append(a.Rules, rr)
+	}
+	return a, ""
 }
 
 func setmap(m map[int][]int) map[string][]int {
@@ -124,8 +194,11 @@ func captureStdout(f func()) string {
 	return <-done
 }
 
-func build(id, src string, wantTokens, wantDot bool) (out Out) {
+func build(id, src string, wantTokens, wantDot, wantAst bool) (out Out) {
 	out.ID = id
+	if wantAst {
+		out.Ast, out.AstErr = astOf(src)
+	}
 	if wantTokens {
 		for _, t := range parser.VerifTokens(src) {
 			out.Tokens = append(out.Tokens, Tok{string(t.Kind), t.Value, t.Line, t.Column, t.EndAt})
@@ -225,7 +298,7 @@ var _ = utils.PackFlags
 
 func main() {
 	// usage: dump [-tokens] [-dot] [-debug] [-timeout ms] < list-of-files   (one path per line)
-	wantTokens, wantDot := false, false
+	wantTokens, wantDot, wantAst := false, false, false
 	timeout := 10 * time.Second
 	for i := 1; i < len(os.Args); i++ {
 		switch os.Args[i] {
@@ -233,6 +306,8 @@ func main() {
 			wantTokens = true
 		case "-dot":
 			wantDot = true
+		case "-ast":
+			wantAst = true
 		case "-debug":
 			utils.DebugFlags = true
 		case "-timeout":
@@ -257,7 +332,7 @@ func main() {
 			continue
 		}
 		ch := make(chan Out, 1)
-		go func() { ch <- build(path, string(b), wantTokens, wantDot) }()
+		go func() { ch <- build(path, string(b), wantTokens, wantDot, wantAst) }()
 		select {
 		case o := <-ch:
 			enc.Encode(o)
